@@ -91,6 +91,13 @@ def finish(chk, known_findings, min_obligations, extra_cov) -> int:
     for v in violations:
         path = os.path.join(OUT, "replay", f"{v.name}.json")
         status, info = "not-executable", {}
+        cross = next((c for c in getattr(chk, "crosses", []) if v.func.endswith(c.name)), None)
+        if cross is not None and v.kind not in ("frame",):
+            try:
+                from .replay import replay_with_cross
+                status, info = replay_with_cross(chk, v, cross)
+            except Exception as exc:
+                status, info = "not-executable", {"replay_error": repr(exc)}
         for prefix, rp in chk.replayers.items():
             if v.name.startswith(prefix):
                 try:
@@ -106,7 +113,7 @@ def finish(chk, known_findings, min_obligations, extra_cov) -> int:
             json.dump(rec, fh, indent=1, default=str)
         viol_records.append(rec)
         if status == "not-reproduced":
-            faults.append(f"{v.name}: counter-model not reproduced by the real code ({info})")
+            faults.append(f"{v.name}: counter-model not reproduced by the real code (native {info.get('native')}, summary {info.get('symbolic_result')})")
             continue
         tail = "" if status == "reproduced" else " no-failing-input-found"
         lines.append(f"VIOLATION property={prop} replay={path}{tail}")
